@@ -44,6 +44,7 @@ class SpecEval:
     def __init__(self, st: State, env: dict, old_st: State = None, old_env: dict = None,
                  engine=None):
         self.st = st
+        self.in_quant = 0
         self.env = env
         self.old_st = old_st
         self.old_env = old_env if old_env is not None else env
@@ -113,7 +114,11 @@ class SpecEval:
             return self.st.ghost[n.attr]
         base = self.ev(n.value)
         if base.ty.kind == "obj":
-            return self.st.get_field(base, n.attr)
+            v = self.st.get_field(base, n.attr)
+            if getattr(self, "assume_wf", False) and v.ty.is_ref and v.t is not None and not self.in_quant and not z3.is_int_value(v.t):
+                # entry heap is closed under allocation (R7): fields named by the precondition are None or allocated
+                self.st.assume(z3.And(v.t >= 0, v.t < self.st.alloc))
+            return v
         raise Unsupported("attribute %s of %s in contract" % (n.attr, base.ty))
 
     def ev_Tuple(self, n):
